@@ -224,16 +224,15 @@ crate::verif_harness! {
     #[kani::stub(std::fmt::format, crate::verif_spec::stubs::format_stub)]
     #[kani::unwind(6)]
     fn k_validate_indexed(s) {
-        let mut entries = nohash::IntMap::default();
+        let mut pal = ColorPalette { entries: Default::default() }; // whatever map type `entries` is
         let ids = [s.u32(), s.u32(), s.u32()];
         let n = s.usize();
         s.assume(n <= 3);
         let mut i = 0;
         while i < n {
-            entries.insert(ids[i], ColorPaletteEntry { id: ids[i], rgba8: [1, 2, 3, 4], name: None });
+            pal.entries.insert(ids[i], ColorPaletteEntry { id: ids[i], rgba8: [1, 2, 3, 4], name: None });
             i += 1;
         }
-        let pal = ColorPalette { entries };
         let px: [u8; 3] = s.bytes();
         let inpal = |p: u8| (0..n).any(|k| ids[k] == p as u32);
         let want = inpal(px[0]) && inpal(px[1]) && inpal(px[2]);
